@@ -115,8 +115,8 @@ GwSeriesOk(t, n, z) ==
   ELSE IF Cfg(t).wtMethod = "Constant"
        THEN Near(z, IF ObsBefore(obs, n) = {} THEN obs[1].depth ELSE obs[MaxOf(ObsBefore(obs, n))].depth, Tol9)
   ELSE \* Variable
-       IF ObsBefore(obs, n) = {} THEN TRUE          \* before the first observation the series is undefined (NaN)
-       ELSE IF ObsAfter(obs, n) = {} THEN Near(z, obs[Len(obs)].depth, Tol9)
+       IF ObsBefore(obs, n) = {} THEN Near(z, obs[MinOf(ObsAfter(obs, n))].depth, Tol9)   \* first observation held before the observed period
+       ELSE IF ObsAfter(obs, n) = {} THEN Near(z, obs[MaxOf(ObsBefore(obs, n))].depth, Tol9)
        ELSE LET i == MaxOf(ObsBefore(obs, n))  j == MinOf(ObsAfter(obs, n))
             IN IF i = j THEN Near(z, obs[i].depth, Tol9)
                ELSE \* z * (dj - di) = vi * (dj - n) + vj * (n - di)
@@ -178,6 +178,8 @@ Upd_DayBegin(t, s, e) ==
                                   !.dead = e.dead, !.harvested = e.harvested, !.nStats = e.nStats]]
 
 \* ---- CheckGW
+\* a compartment centre within 1e-9 m of the table: exact and floating-point comparison may disagree
+TieAt(t, z) == \E i \in 1..Cfg(t).N : Near(Cfg(t).zmidProf[i], z, Tol9)
 CheckGWC(t, s, e) ==
   LET c == Cfg(t) k == K(t) wt == (c.wt = 1) IN
   [ same   |-> Same(s.ws, WsOf(s, e)),
@@ -186,7 +188,7 @@ CheckGWC(t, s, e) ==
     range  |-> (wt /\ Has(e, "fcAdj")) => \A i \in 1..k.N : LeTol(k.Wfc[i], e.fcAdj[i], Tol9) /\ LeTol(e.fcAdj[i], Max(k.Wsat[i], k.Wfc[i]), Tol9),
     far    |-> (wt /\ e.hasZ /\ Has(e, "fcAdj")) => \A i \in 1..k.N : Ge(Sub(e.zgw, k.zmid[i]), Units(2)) => Near(e.fcAdj[i], k.Wfc[i], Tol9),
     series |-> (wt /\ e.hasZ) => GwSeriesOk(t, c.startDay + s.clk.tsc, e.zgw),
-    inSoil |-> (wt /\ e.hasZ) => (e.wtInSoil <=> \E i \in 1..k.N : Ge(c.zmidProf[i], e.zgw)) ]
+    inSoil |-> (wt /\ e.hasZ /\ ~TieAt(t, e.zgw)) => (e.wtInSoil <=> \E i \in 1..k.N : Ge(c.zmidProf[i], e.zgw)) ]
 Chk_CheckGW(t, s, e) == Tag("CheckGW", CheckGWC(t, s, e))
 Upd_CheckGW(t, s, e) == [s EXCEPT !.ws = WsOf(s, e), !.fcAdj = IF Has(e, "fcAdj") THEN e.fcAdj ELSE s.fcAdj,
                                   !.d = [s.d EXCEPT !.hasZ = e.hasZ, !.zgw = IF e.hasZ THEN e.zgw ELSE Z]]
@@ -263,7 +265,7 @@ TrArgs(t, s, e) == [tr |-> e.tr, trpot |-> e.trpot, irrnet |-> e.irrnet, gs |-> 
 Chk_Transpire(t, s, e) == Tag("Transpire", TranspC(K(t), s.ws, WsOf(s, e), TrArgs(t, s, e)))
 Upd_Transpire(t, s, e) == [s EXCEPT !.ws = WsOf(s, e), !.d = [s.d EXCEPT !.tr = e.tr]]
 FirstBelow(t, z) == LET S == {i \in 1..Cfg(t).N : Ge(Cfg(t).zmidProf[i], z)} IN IF S = {} THEN 0 ELSE MinOf(S)
-GwArgs(t, s, e) == [gwin |-> e.gwin, wtInSoil |-> e.wtInSoil, first |-> IF s.d.hasZ THEN FirstBelow(t, s.d.zgw) ELSE 0]
+GwArgs(t, s, e) == [gwin |-> e.gwin, wtInSoil |-> e.wtInSoil, first |-> IF s.d.hasZ /\ ~TieAt(t, s.d.zgw) THEN FirstBelow(t, s.d.zgw) ELSE 0]
 Chk_GwInflow(t, s, e) == Tag("GwInflow", GwInC(K(t), s.ws, WsOf(s, e), GwArgs(t, s, e)))
 
 \* ---- RootZone
